@@ -147,7 +147,9 @@ def ident(rng, used, prefix=""):
     fm = fl.settings.factory_manager
     while True:
         s = prefix + rng.choice(IDENT_FIRST) + "".join(rng.choice(IDENT_REST) for _ in range(rng.randrange(0, 6)))
-        if s in used or s.lower() in RESERVED or s in fm.function.objects or s in fm.hedge.constructors:
+        # "k" is the name of the inert substitution variable that `gen_term` gives to Function terms: an engine variable of
+        # that name is a name clash that membership() rejects (C17) and that the FuzzyLite Language cannot carry
+        if s in used or s.lower() in RESERVED or s in fm.function.objects or s in fm.hedge.constructors or s == "k":
             continue
         used.add(s)
         return s
